@@ -11,6 +11,10 @@ type Fun1i2 struct {
 }
 
 func newFun1i2(name string, args slip.List, p *slip.Printer) Node {
+	if len(args) == 0 {
+		// Without the special first argument there is nothing to lay out.
+		return &Leaf{text: []byte("(" + name + ")")}
+	}
 	fun := Fun1i2{
 		List: List{children: make([]Node, len(args))},
 		name: name,
